@@ -178,6 +178,7 @@ def registry_conservation(prog, run, r):
 
 
 def check(prog, run):
+    check_every_extension_checked(prog, run, "K1")
     check_single_root_declaration(prog, run, "O2")
     _PROG[0] = prog
     b = prog.get_class(BUILDER, "ASTTypeBuilder")
@@ -716,3 +717,38 @@ def check_single_root_declaration(prog, run, rule_id):
                                    "a legitimate declaration is not recorded"))
     if n_loops < 2:
         raise AnalysisError("C11.%s: the loops recording root operation types were not found (%d)" % (rule_id, n_loops))
+
+
+def check_every_extension_checked(prog, run, rule_id):
+    """Every extension collected for a target has the kind the target asks for."""
+    r = run.rule(rule_id, "ASTTypeBuilder._collect_extensions: the class test against the expected extension kind (raising ExtensionError "
+                          "otherwise) is made on the variable of a loop over the target's whole extension list, and what the function "
+                          "returns is that list or a list appended to in that loop - a test on one element (`extensions[0]`) lets "
+                          "`extend type Foo {..}  extend interface Foo {..}` through to code that assumes the kind", 1)
+    b = prog.get_class("py_gql.sdl.ast_type_builder", "ASTTypeBuilder")
+    f = b.find_method("_collect_extensions")
+    if f is None:
+        raise AnalysisError("C11.%s: ASTTypeBuilder._collect_extensions not found" % rule_id)
+    run.looked_at(f)
+    kind_param = f.params[-1]
+    tests = [n for n in own_nodes(f.node) if isinstance(n, ast.Call) and isinstance(n.func, ast.Name) and n.func.id == "isinstance" and len(n.args) == 2
+             and isinstance(n.args[1], ast.Name) and n.args[1].id == kind_param]
+    if not tests:
+        run.report(r, "py_gql.sdl.ast_type_builder:ASTTypeBuilder._collect_extensions:no-kind-test", f.where(),
+                   "_collect_extensions no longer tests the extensions against the expected kind")
+        return
+    for t in tests:
+        subj = t.args[0]
+        loop = None
+        cur = getattr(t, "_parent", None)
+        while cur is not None and cur is not f.node:
+            if isinstance(cur, ast.For) and isinstance(subj, ast.Name) and isinstance(cur.target, ast.Name) and cur.target.id == subj.id:
+                loop = cur
+                break
+            cur = getattr(cur, "_parent", None)
+        whole = loop is not None and not any(isinstance(x, ast.Subscript) for x in ast.walk(loop.iter))
+        r.instance("kind test on `%s`: %s" % (ast.unparse(subj), "variable of a loop over `%s`" % ast.unparse(loop.iter)[:50] if loop is not None else "not a loop variable"))
+        if not whole:
+            run.report(r, "py_gql.sdl.ast_type_builder:ASTTypeBuilder._collect_extensions:kind-tested-on-one-element", f.where(t),
+                       "the expected extension kind is tested on `%s`, not on every element of the list that is returned: a later "
+                       "extension of another kind is handed to the caller" % ast.unparse(subj))
